@@ -1,5 +1,174 @@
 ---------------------------- MODULE PuanPrioOps ----------------------------
-EXTENDS PuanModel
-PrioOpNames == {}
-PrioVerdict(e) == {"unknown_op"}
+(***************************************************************************)
+(* Priority compression (integer_ndarray.ndint_compress), objective        *)
+(* vectors of the configurator and the solver bridge: pure operators and   *)
+(* the trace verdicts of C13, C14, C15.                                    *)
+(* A 2-D array is X : Seq(rows) of Seq(cols); compression is along the     *)
+(* rows (axis 0): one result entry per column.                             *)
+(***************************************************************************)
+EXTENDS PuanCtor
+
+Abs(x) == IF x < 0 THEN -x ELSE x
+Sgn(x) == IF x < 0 THEN -1 ELSE IF x > 0 THEN 1 ELSE 0
+NCols(X) == Len(X[1])
+Cols(X) == 1..NCols(X)
+NzRows(X, j) == { i \in DOMAIN X : X[i][j] # 0 }
+Live(X) == { j \in Cols(X) : NzRows(X, j) # {} }
+\* level of a column = <<row, |value|>> of its LAST non-zero entry
+LRow(X, j) == SetMax(NzRows(X, j))
+LVal(X, j) == X[LRow(X, j)][j]
+Level(X, j) == <<LRow(X, j), Abs(LVal(X, j))>>
+LvLess(a, b) == a[1] < b[1] \/ (a[1] = b[1] /\ a[2] < b[2])
+Below(X, j, k) == LvLess(Level(X, j), Level(X, k))
+Same(X, j, k)  == Level(X, j) = Level(X, k)
+Levels(X) == { Level(X, j) : j \in Live(X) }
+
+(* ---- exact methods ------------------------------------------------------- *)
+FirstNZ(X) == [ j \in Cols(X) |-> IF j \in Live(X) THEN X[SetMin(NzRows(X, j))][j] ELSE 0 ]
+LastNZ(X)  == [ j \in Cols(X) |-> IF j \in Live(X) THEN LVal(X, j) ELSE 0 ]
+MinNZ(X)   == [ j \in Cols(X) |-> IF j \in Live(X) THEN SetMin({ X[i][j] : i \in NzRows(X, j) }) ELSE 0 ]
+MaxAll(X)  == [ j \in Cols(X) |-> SetMax({ X[i][j] : i \in DOMAIN X }) ]
+
+(* ---- prio: dense rank of the level, sign and zeros kept ---------------------- *)
+Prio(X) == [ j \in Cols(X) |-> IF j \in Live(X)
+                               THEN Sgn(LVal(X, j)) * (1 + Cardinality({ lv \in Levels(X) : LvLess(lv, Level(X, j)) }))
+                               ELSE 0 ]
+\* r is an order preserving dense ranking of the vector p (ties kept, values contiguous, starting at 0 or 1)
+DenseRankOf(p, r) ==
+  /\ DOMAIN r = DOMAIN p
+  /\ \A j, k \in DOMAIN p : (p[j] < p[k] <=> r[j] < r[k]) /\ (p[j] = p[k] <=> r[j] = r[k])
+  /\ DOMAIN p # {} => LET V == { r[j] : j \in DOMAIN r } IN
+                        SetMin(V) \in {0, 1} /\ V = SetMin(V)..SetMax(V)
+
+(* ---- shadow: the relation the property states (any w with these features is acceptable) *)
+ShadowOK(X, w) ==
+  /\ DOMAIN w = Cols(X)
+  /\ \A j \in Cols(X) : IF j \in Live(X) THEN Sgn(w[j]) = Sgn(LVal(X, j)) ELSE w[j] = 0
+  /\ \A j, k \in Live(X) : /\ Same(X, j, k) => Abs(w[j]) = Abs(w[k])
+                           /\ Below(X, j, k) => Abs(w[j]) < Abs(w[k])
+  /\ \A j \in Live(X) : Abs(w[j]) > SumSeq([ k \in Cols(X) |-> IF k \in Live(X) /\ Below(X, k, j) THEN Abs(w[k]) ELSE 0 ])
+\* ... and one algorithm that satisfies it (weight of a level = 1 + sum of all lower weights, with multiplicity)
+RECURSIVE Wt(_, _)
+Wt(X, j) == 1 + SumSeq([ k \in Cols(X) |-> IF k \in Live(X) /\ Below(X, k, j) THEN Wt(X, k) ELSE 0 ])
+Shadow(X) == [ j \in Cols(X) |-> IF j \in Live(X) THEN Sgn(LVal(X, j)) * Wt(X, j) ELSE 0 ]
+
+(* ---- lexicographic ranking of points by levels (C14 core) -------------------------- *)
+Score(w, x) == SumSeq([ j \in DOMAIN w |-> w[j] * x[j] ])
+LvScore(X, x, lv) == SumSeq([ j \in Cols(X) |-> IF j \in Live(X) /\ Level(X, j) = lv THEN Sgn(LVal(X, j)) * x[j] ELSE 0 ])
+\* x is lexicographically below y: at the highest level where they differ, x scores less
+LexLess(X, x, y) == \E lv \in Levels(X) : /\ LvScore(X, x, lv) < LvScore(X, y, lv)
+                                          /\ \A hi \in Levels(X) : LvLess(lv, hi) => LvScore(X, x, hi) = LvScore(X, y, hi)
+LexSame(X, x, y) == \A lv \in Levels(X) : LvScore(X, x, lv) = LvScore(X, y, lv)
+\* the weight vector w ranks the point set P exactly like the levels of X
+RanksOn(X, w, P) == \A x, y \in P : (LexLess(X, x, y) <=> Score(w, x) < Score(w, y)) /\ (LexSame(X, x, y) => Score(w, x) = Score(w, y))
+
+(* ---- transposition / batches --------------------------------------------------------- *)
+Transpose(X) == [ j \in Cols(X) |-> [ i \in DOMAIN X |-> X[i][j] ] ]
+
+(* ---- trace verdicts --------------------------------------------------------------------- *)
+QFail(c, ok) == IF ok THEN {} ELSE {c}
+\* one 2-D compression along axis 0 of X with recorded result r
+Compress2(method, X, r) ==
+  IF X = <<>> \/ Len(r) # NCols(X) THEN {"shape"} ELSE
+  CASE method = "first" -> QFail("exact", r = FirstNZ(X))
+    [] method = "last"  -> QFail("exact", r = LastNZ(X))
+    [] method = "min"   -> QFail("exact", r = MinNZ(X))
+    [] method = "max"   -> QFail("exact", r = MaxAll(X))
+    [] method = "prio"  -> QFail("prio_dense", r = Prio(X))
+    [] method = "rank"  -> QFail("rank_dense", DenseRankOf(Prio(X), r))
+    [] method = "shadow" -> QFail("zeros_signs", \A j \in Cols(X) : IF j \in Live(X) THEN Sgn(r[j]) = Sgn(LVal(X, j)) ELSE r[j] = 0)
+                            \cup QFail("ties", \A j, k \in Live(X) : Same(X, j, k) => Abs(r[j]) = Abs(r[k]))
+                            \cup QFail("order", \A j, k \in Live(X) : Below(X, j, k) => Abs(r[j]) < Abs(r[k]))
+                            \cup QFail("dominance", \A j \in Live(X) : Abs(r[j]) > SumSeq([ k \in Cols(X) |-> IF k \in Live(X) /\ Below(X, k, j) THEN Abs(r[k]) ELSE 0 ]))
+    [] OTHER -> {"unknown_method"}
+\* event: {kind: "2d0" | "2d1" | "flat" | "3d0", x: nested ints, runs: [{m: method, r: result}]}
+Compress1(kind, method, x, r) ==
+  CASE kind = "2d0"  -> Compress2(method, x, r)
+    [] kind = "2d1"  -> Compress2(method, Transpose(x), r)
+    [] kind = "flat" -> Compress2(method, <<x>>, r)
+    \* a stack x[g][i][j] with axis 0: 'min'/'max' reduce literally along axis 0 (over g, numpy semantics);
+    \* the other methods compress every item of the batch along its own rows
+    [] kind = "3d0"  -> IF method \in {"min", "max"}
+                        THEN IF Len(r) # Len(x[1]) THEN {"shape"}
+                             ELSE UNION { Compress2(method, [ g \in DOMAIN x |-> x[g][i] ], r[i]) : i \in DOMAIN x[1] }
+                        ELSE IF Len(r) # Len(x) THEN {"shape"}
+                        ELSE UNION { Compress2(method, x[g], r[g]) : g \in DOMAIN x }
+    [] OTHER -> {"unknown_kind"}
+EvCompress(e) == UNION { { e.runs[k].m \o ":" \o c : c \in Compress1(e.kind, e.runs[k].m, e.x, e.runs[k].r) } : k \in DOMAIN e.runs }
+
+(* ---- configurator objective (C14) ------------------------------------------------------- *)
+\* level matrix of a select() request: row 1 = default priorities, row 2 = the user's priorities, by column id
+UserRow(cols, prios) == [ j \in DOMAIN cols |-> IF cols[j].id \in DOMAIN prios THEN prios[cols[j].id] ELSE 0 ]
+LevelMatrix(cols, dpv, prios) == << [ j \in DOMAIN cols |-> dpv[j] ], UserRow(cols, prios) >>
+\* points as sequences over column positions
+PolyPts(p) == { [ j \in DOMAIN p.cols |-> x[p.cols[j].id] ] :
+                x \in { x \in RangeProduct(ColIds(p.cols), [ i \in ColIds(p.cols) |-> p.cols[CHOOSE j \in DOMAIN p.cols : p.cols[j].id = i].lo ],
+                                                        [ i \in ColIds(p.cols) |-> p.cols[CHOOSE j \in DOMAIN p.cols : p.cols[j].id = i].hi ]) : MSat(p.rows, p.cols, x) } }
+ArgMax(w, P) == { x \in P : \A y \in P : Score(w, y) <= Score(w, x) }
+
+\* the specified configurator: structure from the recipe, default priorities from the structure
+SpecCols(n) == SetToSeq({ m \in Flat(n) : m.id # n.id })
+SpecPoly(n) == LET cs == SpecCols(n)
+                   cols == [ j \in DOMAIN cs |-> [id |-> cs[j].id, lo |-> cs[j].lo, hi |-> cs[j].hi] ]
+                   rs == SetToSeq(Rows(n, TRUE))
+                   rows == [ i \in DOMAIN rs |-> [b |-> rs[i].b, a |-> [ j \in DOMAIN cols |-> IF cols[j].id \in DOMAIN rs[i].c THEN rs[i].c[cols[j].id] ELSE 0 ]] ]
+               IN [rows |-> rows, cols |-> cols, dpv |-> [ j \in DOMAIN cs |-> IF IsAtom(cs[j]) THEN -1 ELSE cs[j].prio ]]
+\* leaf parts (as functions id -> value) of a set of points of polyhedron p
+LeafParts(p, P, leafIds) == { [ i \in leafIds |-> x[CHOOSE j \in DOMAIN p.cols : p.cols[j].id = i] ] : x \in P }
+
+(* ---- solver bridge events (C14 / C15) ----------------------------------------------------- *)
+\* what a reported dictionary must be: every kept column's id mapped to the solver's entry for THAT column
+ReportOf(cols, x, keep(_)) == [ i \in { cols[j].id : j \in { j \in DOMAIN cols : keep(j) } } |-> x[CHOOSE j \in DOMAIN cols : cols[j].id = i] ]
+SameFn(f, g) == DOMAIN f = DOMAIN g /\ \A i \in DOMAIN f : f[i] = g[i]
+AnswersOK(e, keep(_)) ==
+  /\ Len(e.reported) = Len(e.returned)
+  /\ \A k \in DOMAIN e.returned :
+        IF e.returned[k].none THEN e.reported[k] = <<>>
+        ELSE Len(e.returned[k].x) = Len(e.received.cols) /\ SameFn(PairsFn(e.reported[k]), ReportOf(e.received.cols, e.returned[k].x, keep))
+
+EvSelect(e) ==
+  LET m == e.model
+      rc == e.received
+      called == e.called
+      lids == LeafIds(m)
+      spec == SpecPoly(Mk(e.recipe))
+  IN IF e.solver = "raise" THEN QFail("raises_infeasible", e.exc = "InfeasibleError")
+     ELSE QFail("no_exception", e.exc = "")
+     \cup (IF e.exc # "" \/ ~called THEN {} ELSE
+           QFail("poly_is_own", rc.rows = e.direct.rows /\ rc.cols = e.direct.cols /\ rc.dpv = e.direct.dpv)
+           \cup QFail("objective_count", Len(rc.objectives) = Len(e.prios) /\ \A k \in DOMAIN rc.objectives : Len(rc.objectives[k]) = Len(rc.cols))
+           \cup (IF Len(rc.objectives) # Len(e.prios) \/ \E k \in DOMAIN rc.objectives : Len(rc.objectives[k]) # Len(rc.cols) THEN {} ELSE
+                 QFail("ranks", e.enum => \A k \in DOMAIN e.prios :
+                            RanksOn(LevelMatrix(rc.cols, rc.dpv, PairsFn(e.prios[k])), rc.objectives[k], PolyPts(rc)))
+                 \cup QFail("opt_same", (e.enum /\ e.spec_ok) => \A k \in DOMAIN e.prios :
+                            LeafParts(rc, ArgMax(rc.objectives[k], PolyPts(rc)), lids)
+                            = LeafParts(spec, ArgMax(Shadow(LevelMatrix(spec.cols, spec.dpv, PairsFn(e.prios[k]))), PolyPts(spec)), lids)))
+           \cup QFail("ids_aligned", AnswersOK(e, LAMBDA j : (~e.only_leafs) \/ rc.cols[j].id \in lids))
+           \cup QFail("optimal", (e.solver = "exact" /\ e.enum) => \A k \in DOMAIN e.returned : LET P == PolyPts(rc) IN
+                            IF e.returned[k].none THEN P = {} ELSE e.returned[k].x \in ArgMax(rc.objectives[k], P)))
+
+EvSolve(e) ==
+  LET m == e.model
+      rc == e.received
+      lids == LeafIds(m)
+  IN QFail("no_exception", e.exc = "")
+     \cup (IF e.exc # "" THEN {} ELSE
+           QFail("poly_is_own", rc.rows = e.direct.rows /\ rc.cols = e.direct.cols)
+           \cup QFail("objective_by_id", /\ Len(rc.objectives) = Len(e.objectives)
+                                          /\ \A k \in DOMAIN rc.objectives : LET w == PairsFn(e.objectives[k]) IN
+                                                /\ Len(rc.objectives[k]) = Len(rc.cols)
+                                                /\ \A j \in DOMAIN rc.cols : rc.objectives[k][j] = (IF rc.cols[j].id \in DOMAIN w THEN w[rc.cols[j].id] ELSE 0))
+           \cup QFail("ids_aligned", AnswersOK(e, LAMBDA j : (~rc.cols[j].gen) \/ e.include_virtual))
+           \cup QFail("optimal", (e.solver = "exact" /\ e.enum) => \A k \in DOMAIN e.returned : LET P == PolyPts(rc) IN
+                            IF e.returned[k].none THEN P = {} ELSE e.returned[k].x \in ArgMax(rc.objectives[k], P))
+           \cup QFail("model_true", (e.solver = "exact" /\ e.enum /\ ~IsAtom(m) /\ WellDefined(m) /\ NoPrefixed(m) /\ NoByRef(m) /\ Safe(m)) =>
+                            \A k \in DOMAIN e.returned : e.returned[k].none \/
+                                 Pt(m, [ i \in lids |-> e.returned[k].x[CHOOSE j \in DOMAIN rc.cols : rc.cols[j].id = i] ]) = 1))
+
+PrioOpNames == {"compress", "select", "solve"}
+PrioVerdict(e) ==
+  CASE e.op = "compress" -> EvCompress(e)
+    [] e.op = "select"   -> EvSelect(e)
+    [] e.op = "solve"    -> EvSolve(e)
+    [] OTHER -> {"unknown_op"}
 =============================================================================
